@@ -1,5 +1,6 @@
 import io
 from . import ref
+from .c03_replay import replay_roundtrip      # noqa: F401  (vbs_bytes_to_list on blocked data)
 
 
 def _payload(data):
